@@ -54,4 +54,16 @@ TimeLaw == LET t == TimeOfD3(<<0, a[2], a[3]>>) IN
    /\ TimeD3(t) = <<0, a[2], a[3]>>
    /\ TimeDiff(t, TimeAdd(t, <<0, b[2], b[3]>>)) \in {<<0, b[2], b[3]>>, D3Sub(<<0, b[2], b[3]>>, <<1, 0, 0>>)}
 TruncLaw == LET ts == TruncSec(a) IN ts[1] \in {-1, 0, 1} /\ ts[2][2] \in 0..86399 /\ (ts[1] = 0 <=> (D3Abs(a)[1] = 0 /\ D3Abs(a)[2] = 0))
+\* more algebra: associativity, multiplication distributes over + and agrees with repeated addition
+AlgebraLaw == /\ D3Add(D3Add(a, b), a) = D3Add(a, D3Add(b, a))
+              /\ D3MulInt(a, -1) = D3Neg(a) /\ D3MulInt(a, 2) = D3Add(a, a) /\ D3MulInt(a, 1) = a
+              /\ D3MulInt(D3Add(a, b), n) = D3Add(D3MulInt(a, n), D3MulInt(b, n))
+              /\ D3MulInt(D3Neg(a), n) = D3Neg(D3MulInt(a, n))
+\* the order is total (trichotomy) and invariant under translation
+OrderLaw == /\ ((IF D3Lt(a, b) THEN 1 ELSE 0) + (IF a = b THEN 1 ELSE 0) + (IF D3Lt(b, a) THEN 1 ELSE 0) = 1)
+            /\ (D3Lt(a, b) <=> D3Lt(D3Add(a, <<n, 59, 999999>>), D3Add(b, <<n, 59, 999999>>)))
+            /\ (D3Lt(a, b) <=> D3Lt(D3Neg(b), D3Neg(a)))
+\* the canonical breakdown is odd: the components of -a are the negated components of a
+\* (truncation towards zero, not floor, on every level)
+BreakdownOdd == LET c == Breakdown(a)  d == Breakdown(D3Neg(a)) IN \A i \in 1..6 : d[i] = -c[i]
 =============================================================================
